@@ -303,6 +303,10 @@ func normalizeToken(in string) string {
 	// here.
 	// Only the scheme is rewritten: replacing every "https" is not idempotent once
 	// punctuation is removed ("https://source..." -> "httpsource..." -> "httpource...").
+	// The first rune keeps its case when the word is not normalized.
+	if strings.HasPrefix(in, "Https://") {
+		in = "Http://" + in[len("Https://"):]
+	}
 	return strings.ReplaceAll(in, "https://", "http://")
 }
 
